@@ -10,6 +10,9 @@
 
 use std::collections::BTreeMap;
 
+pub mod ledger;
+pub mod runner;
+
 pub const DEFAULT_SEED: u64 = 20261002;
 
 #[derive(Clone, Debug)]
